@@ -44,7 +44,9 @@ def _evaluate(pid, mod, tier, tree, m, name, res):
     except Exception as e:
         ctx.ob("engine", "exception", False, msg=repr(e)[:300])
     rx = re.compile(m["expect"])
-    bad = ["%s/%s" % (o["rule"], o["instance"]) for o in ctx.obs if not o["holds"]]
+    known = set(core.load_known()[0])
+    bad = ["%s/%s" % (o["rule"], o["instance"]) for o in ctx.obs
+           if not o["holds"] and "%s/%s/%s" % (pid, o["rule"], o["instance"]) not in known]
     hit = [b for b in bad if rx.search(b)]
     rec = {"mutant": name, "file": m.get("file") or m.get("patch"), "why": m.get("why", ""), "violated": sorted(set(bad))[:8]}
     (res["fired"] if hit else res["missed"]).append(rec)
